@@ -206,13 +206,15 @@ fn viol(component: &str, class: &str, witness: &str, msg: String) -> Violation {
     Violation::new(component, class, witness, msg)
 }
 
-struct RunOut {
-    violation: Option<Violation>,
-    decisions: Vec<u32>,
+pub struct RunOut {
+    pub violation: Option<Violation>,
+    pub decisions: Vec<u32>,
+    /// sink calls (write + flush) the scenario made (writer scenarios)
+    pub sink_calls: u64,
 }
 
 impl C03 {
-    fn run(&self, p: &Plan, stats: &mut Stats) -> RunOut {
+    pub fn run(&self, p: &Plan, stats: &mut Stats) -> RunOut {
         let pool = p.pool.clamp(1, 16);
         match &p.scenario {
             Scenario::Writer {
@@ -292,7 +294,7 @@ impl C03 {
                         }
                     }
                 };
-                RunOut { violation, decisions }
+                RunOut { violation, decisions, sink_calls: c.calls }
             }
             Scenario::Reader { layout, ops, finish } => {
                 let built = match c02::build_layout(layout) {
@@ -398,7 +400,7 @@ impl C03 {
                         }
                     },
                 };
-                RunOut { violation, decisions }
+                RunOut { violation, decisions, sink_calls: 0 }
             }
         }
     }
